@@ -86,6 +86,55 @@ class OsProxy:
         return getattr(os, n)
 
 
+_AUDIT = {'on': False, 'events': [], 'installed': False}
+
+
+def _audit_hook(event, args):
+    if not _AUDIT['on']:
+        return
+    if event in ('open', 'os.rename', 'os.remove', 'os.truncate', 'shutil.move', 'shutil.copyfile', 'os.link', 'os.symlink'):
+        try:
+            _AUDIT['events'].append((event, tuple(a if isinstance(a, (str, bytes, int, type(None))) else repr(a) for a in args)))
+        except Exception:
+            pass
+
+
+def in_place_writes(events, target):
+    """file-system calls (whatever API issued them: builtin open, os.open, shutil, tempfile) that open `target` itself for
+    writing / truncation, or copy onto it -- between such a call and the end of the write the file is neither wallet"""
+    tgt = os.path.abspath(target)
+    bad = []
+    for ev, a in events:
+        if ev == 'open' and isinstance(a[0], (str, bytes)):
+            pth = os.path.abspath(os.fsdecode(a[0]))
+            mode, flags = a[1], a[2] if len(a) > 2 else 0
+            writing = (isinstance(mode, str) and any(c in mode for c in 'wax+')) or \
+                      (isinstance(flags, int) and flags & (os.O_WRONLY | os.O_RDWR | os.O_TRUNC | os.O_APPEND))
+            if pth == tgt and writing:
+                bad.append('open(%s, %s)' % (os.path.basename(pth), mode if mode is not None else 'flags=%#x' % flags))
+        if ev == 'shutil.copyfile' and os.path.abspath(os.fsdecode(a[1])) == tgt:
+            bad.append('copyfile(.., %s)' % os.path.basename(tgt))
+        if ev == 'os.truncate' and isinstance(a[0], (str, bytes)) and os.path.abspath(os.fsdecode(a[0])) == tgt:
+            bad.append('truncate(%s)' % os.path.basename(tgt))
+        if ev == 'os.remove' and isinstance(a[0], (str, bytes)) and os.path.abspath(os.fsdecode(a[0])) == tgt:
+            bad.append('remove(%s)' % os.path.basename(tgt))
+    return bad
+
+
+def other_device_dir():
+    """a writable directory on another file system than the working directory (a temp dir there makes every
+    'write elsewhere, then move' strategy that is not a same-directory rename degrade to copy + delete)"""
+    import tempfile
+    here = os.stat(os.getcwd()).st_dev
+    for d in ('/dev/shm', '/run/shm', '/var/tmp', '/run', os.path.expanduser('~'), '/tmp'):
+        try:
+            if os.path.isdir(d) and os.access(d, os.W_OK) and os.stat(d).st_dev != here:
+                return tempfile.mkdtemp(prefix='skv-c15-', dir=d)
+        except OSError:
+            continue
+    return None
+
+
 def wallet_state(w):
     return [list(w.keypairs.items()), list(w.unused_public_keys), sorted(w.public_key_annotations.items())]
 
@@ -98,7 +147,7 @@ def run(tier, seed):
                'against the unspent outputs paying annotated AND unused keys; every save traced: the on-disk content of '
                'wallet.json after every open/write/close/rename step must be the complete old or the complete new wallet '
                '(exhaustive over crash points); non-trivial = distinct (wallet, op sequence / crash point)')
-    ck.trusted += ['extraction + OCaml driver', 'tracing proxies for open/os in the skepticoin.wallet namespace',
+    ck.trusted += ['extraction + OCaml driver', 'tracing proxies for open/os in the skepticoin.wallet namespace', 'CPython audit events (open, os.rename, shutil.*) for file-system calls made through any other API',
                    'json module (dump/load of the wallet file is compared, not modelled)']
     ck.assumptions += ['process-crash semantics: unflushed buffers are lost, completed rename is atomic (OS guarantee)']
     r = ck.build(extract=True)
@@ -106,6 +155,18 @@ def run(tier, seed):
     from skepticoin.wallet import Wallet
     rng = ck.rng
     reqs, wants = [], []
+    import sys
+    import tempfile
+    if not _AUDIT['installed']:
+        sys.addaudithook(_audit_hook)
+        _AUDIT['installed'] = True
+    xdev = other_device_dir()
+    ck.extra['temp_dir_on_other_filesystem'] = bool(xdev)
+    with chaingen.Env(period=50) as env0:
+        kk = chaingen.Keys()
+        tg0 = chaingen.TreeGen(env0, kk, rng)
+        tg0.extend(tg0.genesis, txs=[], fees=0)
+        cs_bal = chaingen.impl_state_from(tg0.nodes)
     nseq = 25 if tier == 'quick' else 200
     for trial in range(nseq):
         nkeys = rng.choice([0, 1, 2, 2, 3, 6])
@@ -166,14 +227,25 @@ def run(tier, seed):
                 ck.case((trial, step), kind='hand-out/%s' % ('exhausted' if exhausted else 'fresh'),
                         sample={'keys': len(w.keypairs), 'unused_before': len(w.unused_public_keys) + (0 if exhausted else 1),
                                 'exhausted': exhausted} if len(ck.samples) < 3 else None)
-            elif r_ < 0.6 and [k for k, c in holders.items() if c > 0 and k in w.public_key_annotations]:
+            elif r_ < 0.52:
+                # ---- a balance query is an observation: keys, unused list and annotations stay what they are
+                st0 = wallet_state(w)
+                try:
+                    w.get_balance(cs_bal)
+                except Exception as e:
+                    ck.violation('balance-raises', 'get_balance raised %r' % (e,), {'trial': trial, 'step': step})
+                ck.case((trial, step), kind='balance-query')
+                if wallet_state(w) != st0:
+                    ck.violation('balance-query-changes-wallet', 'a balance query changed the wallet (unused keys %d -> %d)'
+                                 % (len(st0[1]), len(w.unused_public_keys)), {'trial': trial, 'step': step})
+            elif r_ < 0.64 and [k for k, c in holders.items() if c > 0 and k in w.public_key_annotations]:
                 k = rng.choice([k for k, c in holders.items() if c > 0 and k in w.public_key_annotations])
                 w.restore_annotated_public_key(k, 'x')
                 holders[k] -= 1
                 ops.append([1, im(k)])
                 want.append(None)
                 ck.case((trial, step), kind='restore')
-            elif r_ < 0.7:
+            elif r_ < 0.74:
                 w.generate_key()
                 k = list(w.keypairs)[-1]
                 ops.append([2, im(k)])
@@ -188,9 +260,17 @@ def run(tier, seed):
                 saved = (W.__dict__.get('open'), W.os)
                 W.open = tr.open
                 W.os = OsProxy(tr)
+                old_tmp = tempfile.tempdir
+                use_xdev = bool(xdev) and step % 2 == 0
+                if use_xdev:
+                    tempfile.tempdir = xdev          # system temp directory on another file system (e.g. tmpfs /tmp)
+                _AUDIT['events'] = []
+                _AUDIT['on'] = True
                 try:
                     W.save_wallet(w)
                 finally:
+                    _AUDIT['on'] = False
+                    tempfile.tempdir = old_tmp
                     if saved[0] is None:
                         del W.open
                     else:
@@ -201,6 +281,13 @@ def run(tier, seed):
                 w.dump(buf)
                 expect_new = buf.getvalue().encode()
                 rp = {'trial': trial, 'step': step, 'ops': [repr(s[0]) for s in tr.states]}
+                inplace = in_place_writes([e for e in _AUDIT['events']], 'wallet.json') if old_disk is not None else []
+                if inplace:
+                    ck.violation('wallet-file-written-in-place', 'a save%s opens wallet.json itself for writing (%s): until that '
+                                 'write completes the file is neither the previous nor the new wallet'
+                                 % (' with the system temp directory on another file system' if use_xdev else '', ', '.join(inplace[:3])),
+                                 dict(rp, temp_dir_on_other_filesystem=use_xdev, calls=[repr(e)[:120] for e in _AUDIT['events']][:20]))
+                ck.count('save/fs-calls-audited', len(_AUDIT['events']))
                 if new_disk != expect_new:
                     ck.violation('saved-file-not-dump', 'wallet.json after save differs from the wallet dump', rp)
                 for i, (op, content) in enumerate(tr.states):
@@ -229,6 +316,9 @@ def run(tier, seed):
         for f in ('wallet.json', 'wallet.json.new'):
             if os.path.exists(f):
                 os.unlink(f)
+    if xdev:
+        import shutil
+        shutil.rmtree(xdev, ignore_errors=True)
     # ---- balance over annotated and unused keys
     from skepticoin.wallet import Wallet as Wl
     keys = chaingen.Keys()
